@@ -21,6 +21,8 @@ type verAPI interface {
 	Ver() int
 	Size() uintptr
 	New() unsafe.Pointer
+	// NewSlab allocates n adjacent objects (one array) and returns them.
+	NewSlab(n int) []unsafe.Pointer
 	Parse(s string) (unsafe.Pointer, error)
 	Set(p unsafe.Pointer, m, v string) error
 	Get(p unsafe.Pointer, m string) (string, error)
@@ -110,6 +112,14 @@ func (g *gapi[T]) Ver() int      { return g.ver }
 func (g *gapi[T]) Size() uintptr { var z T; return unsafe.Sizeof(z) }
 func (g *gapi[T]) New() unsafe.Pointer {
 	return unsafe.Pointer(new(T))
+}
+func (g *gapi[T]) NewSlab(n int) []unsafe.Pointer {
+	arr := make([]T, n)
+	out := make([]unsafe.Pointer, n)
+	for i := range arr {
+		out[i] = unsafe.Pointer(&arr[i])
+	}
+	return out
 }
 func (g *gapi[T]) Parse(s string) (unsafe.Pointer, error) {
 	p, err := g.parse(s)
